@@ -206,6 +206,32 @@ pub fn set_mask(bits: u64) {
     }
 }
 
+static mut WINDOW_OUT: Option<(String, String)> = None; // (parent's pipe descriptors at the window, the other child's)
+static mut WINDOW_DIR: Option<String> = None;
+
+/// the "other thread": a complete, unrelated launch run inside the window; its child reports the pipes it holds
+fn window_hook() {
+    let dir = unsafe { WINDOW_DIR.clone().unwrap_or_else(|| "/tmp".into()) };
+    let path = format!("{}/window_fds", dir);
+    let _ = std::fs::remove_file(&path);
+    let mut parent = vec![];
+    for fd in 0..256 {
+        unsafe {
+            let mut st: libc::stat = std::mem::zeroed();
+            if libc::fstat(fd, &mut st) == 0 && (st.st_mode & libc::S_IFMT) == libc::S_IFIFO {
+                parent.push(format!("{}:{}", fd, st.st_ino));
+            }
+        }
+    }
+    let me = std::env::current_exe().unwrap();
+    let hplain = me.parent().unwrap().join("hplain");
+    if let Ok(mut p) = Popen::create(&[hplain.as_os_str(), std::ffi::OsStr::new("fdlist"), std::ffi::OsStr::new(&path)], PopenConfig::default()) {
+        let _ = p.wait();
+    }
+    let other = std::fs::read_to_string(&path).unwrap_or_default();
+    unsafe { WINDOW_OUT = Some((parent.join(" "), other)) };
+}
+
 pub fn leftover() -> String {
     unsafe {
         let mut st = 0;
@@ -267,6 +293,13 @@ fn run_case(idx: usize, line: &str, dir: &str, out: &mut Out) {
     let faults = parse_faults(spec.get("faults"));
     let in_thread = spec.get("thread") == "1";
     let detached = spec.get("det") == "1";
+    let window: usize = spec.get("window").parse().unwrap_or(0);
+    unsafe {
+        WINDOW_OUT = None;
+        WINDOW_DIR = Some(dir.to_string());
+        trace::PIPE_HOOK_AT = window;
+        trace::PIPE_HOOK = if window > 0 { Some(window_hook) } else { None };
+    }
     let core = move || {
         trace::start(&faults, true);
         let res = match std::panic::catch_unwind(std::panic::AssertUnwindSafe(|| Popen::create(&argv, cfg))) {
@@ -333,6 +366,12 @@ fn run_case(idx: usize, line: &str, dir: &str, out: &mut Out) {
         out.line(&format!("LOG {}", l));
     }
     out.line(&format!("ALLOC {} {}", allocs, abytes));
+    unsafe {
+        trace::PIPE_HOOK_AT = 0;
+        if let Some((parent, other)) = WINDOW_OUT.take() {
+            out.line(&format!("WINDOW parent={} other={}", if parent.is_empty() { "-".into() } else { parent.replace(' ', ",") }, if other.is_empty() { "-".into() } else { other.replace(' ', ",") }));
+        }
+    }
     out.line(&format!("LEFT errpath={} end={} detached={}", left_before_drop, leftover(), detached as u8));
     drop(live);
     reap_all();
